@@ -54,11 +54,11 @@ pub fn full_alphabet() -> Vec<Vec<u8>> {
     v
 }
 
-/// 26-token alphabet aimed at the locale grammar
+/// 27-token alphabet aimed at the locale grammar
 pub fn locale_alphabet() -> Vec<Vec<u8>> {
     [
         "en", "und", "latn", "us", "001", "valencia", "1abc", "t", "u", "x", "a", "0", "ca", "nu", "h0",
-        "k0", "foo", "true", "abcdefgh", "toolongxx", "", "EN", "a.b", "1a", "fr", "T",
+        "k0", "foo", "true", "abcdefgh", "toolongxx", "", "EN", "a.b", "1a", "fr", "T", "truest",
     ]
     .iter()
     .map(|s| s.as_bytes().to_vec())
@@ -288,6 +288,9 @@ pub fn s_value() -> SBoxedStrategy<String> {
         1 => "[0-9]{3}",
         1 => "[a-b]{3}",
         1 => Just("true".to_string()),
+        // values that merely contain the droppable word (a test on part of the subtag - its first
+        // four bytes, a prefix match - confuses them with it)
+        1 => prop_oneof!["true[a-z0-9]{1,4}", "[a-z0-9]{1,4}true", "tru[a-df-z0-9]"],
     ]
     .sboxed()
 }
